@@ -411,6 +411,10 @@ def fixed_programs():
         ("plain:power-3", P_([("out", [0], "o0", None, ("bin", "**", "a", 3))])),
         ("plain:power-n", P_([("out", [0], "o0", None, ("bin", "**", "a", "n"))])),
         ("plain:signal-exponent", P_([("out", [0], "o0", None, ("bin", "**", 2, "a"))])),
+        # degree 2, but not of the form A * B + C with A, B, C linear: the compiler rejects these in a constraint (NO_RANK_ONE below)
+        ("plain:sum-of-two-squares", P_([("out", [0], "o0", None, ("bin", "+", a2, ("bin", "*", "b", "b")))])),
+        ("plain:difference-of-two-products", P_([("out", [0], "o0", None, ("bin", "-", ("bin", "*", "a", "b"), ("bin", "*", ("bin", "+", "b", 1), ("bin", "+", "b", 2))))])),
+        ("var:sum-of-products-accumulated", P_([("var", [0], "v0", a2), ("set", [0], "v0", "+=", ("bin", "*", "b", "b")), ("out", [0], "o0", None, "v0")])),
         ("var:product-accumulated-in-loop", P_([("var", [0], "v0", 1), ("for", [0], "i", "n", [("set", [0], "v0", "*=", "a")]), ("out", [0], "o0", None, "v0")])),
         ("var:product-accumulated-twice", P_([("var", [0], "v0", "a"), ("for", [0], "i", 2, [("set", [0], "v0", "*=", "a")]), ("out", [0], "o0", None, "v0")])),
         ("var:sum-accumulated-in-loop", P_([("var", [0], "v0", 0), ("for", [0], "i", "n", [("set", [0], "v0", "+=", a2)]), ("out", [0], "o0", None, "v0")])),
@@ -434,6 +438,10 @@ def fixed_programs():
         ("implicit-flow:loop", P_([("var", [0], "v0", 0), ("for", [0], "i", ("bin", "&", "a", 3), [("set", [0], "v0", "=", ("bin", "+", "v0", 1))]), ("out", [0], "o0", None, "v0")])),
     ]
     return progs
+
+
+# fixed shapes whose right-hand side has degree 2 without being a product of two linear expressions plus a linear one
+NO_RANK_ONE = {"plain:sum-of-two-squares", "plain:difference-of-two-products", "var:sum-of-products-accumulated"}
 
 
 def claims_of(out):
@@ -586,6 +594,10 @@ def suite(exe, tier, seed, run_cli):
                     st = outs.get(ln)
                     if st is None: continue
                     claims += 1
+                    if name in NO_RANK_ONE:
+                        what = (f"line {ln}: `{text.splitlines()[ln - 1].strip()}` is reported as quadratic and rewritable with `<==` (CS0013), but the assigned value is a sum of two products: "
+                                f"it is not of the form A * B + C with A, B, C linear, and the compiler rejects it in a constraint (rhs {etext(st[4])})")
+                        break
                     for n in (0, 1, 2, 3):
                         bad = third_difference_nonzero(prog, st[1], n, rng)
                         if bad:
@@ -603,6 +615,6 @@ def suite(exe, tier, seed, run_cli):
     finally:
         shutil.rmtree(d, ignore_errors=True)
     return {"unit": "e2e-degrees", "evaluations": evals, "distinct_nontrivial": claims, "exhaustive": False,
-            "rule": "the real CLI on generated templates; every CS0013 finding (`the expression assigned with <-- is quadratic`) is judged by an independent semantic oracle: a concrete interpreter over the BN254 field evaluates the program at four points of a random line in signal space (component outputs are indeterminates of their own) for n = 0..3, and a non-vanishing third finite difference of the assigned value certifies that it is not a polynomial of degree <= 2; non-trivial = CS0013 claims judged",
+            "rule": "the real CLI on generated templates; every CS0013 finding (`the expression assigned with <-- is quadratic`) is judged by an independent semantic oracle: a concrete interpreter over the BN254 field evaluates the program at four points of a random line in signal space (component outputs are indeterminates of their own) for n = 0..3, and a non-vanishing third finite difference of the assigned value certifies that it is not a polynomial of degree <= 2; three fixed shapes of degree 2 that are sums of two products (not of the form A * B + C) must not be advertised either; non-trivial = CS0013 claims judged",
             "bound": f"{len(fixed_programs())} fixed shapes (operators, powers, accumulation in loops and branches, ternaries, calls, arrays, component ports, output arrays, implicit flows) + {n_random} random templates of 4..11 statements (variables, arrays of 3, loops bounded by 2, 3 or n, branches on n and loop counters, 20 operators, 3 functions); conditions that depend on signals occur only in the fixed shapes",
             "samples": samples, "violations": viol}
